@@ -523,6 +523,28 @@ func genDistrUpd(g *Gen, n int) {
 			g.emit("d.params")
 			g.count("shape/primary-name-clash")
 		}
+		if sc%3 == 1 {
+			// directed shape: single-value updates that are valid ON THEIR OWN (0 <= x < 1) but push the
+			// sum of burn share and named shares of that sub-distributor to 1 or above; then blocks with
+			// coins in the main account (an accepted update of this kind makes BeginBlocker panic)
+			g.emit("d.new")
+			g.emit("d.sub summed 300000000000000000 %s", gAcc{distrtypes.ModuleAccount, "green_energy_booster_collector"}.tok())
+			g.emit("d.src %s", gAcc{distrtypes.Main, ""}.tok())
+			g.emit("d.share half 500000000000000000 %s", gAcc{distrtypes.ModuleAccount, "governance_booster_collector"}.tok())
+			g.emit("d.update full gov")
+			g.emit("d.params")
+			if g.chance(0.5) {
+				g.emit("d.update burn gov summed %s", g.pick("500000000000000000", "999999999999999999", "500000000000000001"))
+			} else {
+				g.emit("d.update share gov summed half %s", g.pick("700000000000000000", "999999999999999999", "700000000000000001"))
+			}
+			g.emit("d.params")
+			for b := 0; b < 3; b++ {
+				g.emit("d.credit %s [uc4e=%d]", mainAddr, 1000+g.intn(100000))
+				g.emit("d.bb")
+			}
+			g.count("shape/single-value-update-sum")
+		}
 		for i := 0; i < 3+g.intn(8); i++ {
 			auth := g.pick("gov", "gov", "gov", "gov", "other", "empty", "garbage")
 			switch g.intn(6) {
